@@ -35,7 +35,39 @@ SIG = {
 # (absolute tolerances such as 1e-6 swallow whole inter-spike intervals), and a recording that straddles 0
 # (`bound or default` idioms treat a bound of exactly 0 as missing)
 MAPS = [(Fr(1), Fr(-16)), (Fr(1), Fr(1000)), (Fr(1, 4), Fr(0)), (Fr(8), Fr(-3)), (Fr(1), Fr(-5, 2)), (Fr(2), Fr(7, 4)),
-        (Fr(1), Fr(2 ** 20)), (Fr(1, 2 ** 24), Fr(0)), (Fr(1), Fr(-1, 2))]
+        (Fr(1), Fr(2 ** 20)), (Fr(1, 2 ** 24), Fr(0)), (Fr(1), Fr(-1, 2)),
+        # spike times one unit in the last place apart (1 + k*2^-52 for the k/8 grid; finer grids are not representable
+        # and are skipped by _exact): sums such as s_prev + tau round there, differences do not
+        (Fr(1, 2 ** 49), Fr(1)),
+        # round 9: offsets taken from the case itself - the recording ENDS exactly at 0 (all times negative; `t_end or
+        # default`, np.trim_zeros, `x[-1]` used as a length), and a spike / breakpoint of the first time list sits
+        # exactly on 0.0 (truthiness of a time: `if prev and ...`, `spikes.any()`)
+        (Fr(1), "end"), (Fr(1), "first"), (Fr(1), "last")]
+
+
+def _anchor(rid, args, what):
+    """the time of the case that the data-dependent maps move to 0: the end of the recording / support, or the first
+    / last entry of the first non-empty time list; None when the case has none"""
+    sig = SIG[rid]
+    if what == "end":
+        for kind, a in zip(sig, args):
+            if kind == "T":
+                return a[2]
+            if kind == "L":
+                return a[0][2] if a else None
+        if sig.startswith("sstt"):
+            return args[3]
+        if rid == 42:
+            return args[2]
+        if sig[0] == "s" and args[0]:
+            return args[0][-1]
+        return None
+    for kind, a in zip(sig, args):
+        lists = [a] if kind == "s" else [a[0]] if kind == "T" else [t[0] for t in a] if kind == "L" else []
+        for l in lists:
+            if l:
+                return l[0] if what == "first" else l[-1]
+    return None
 
 
 def _time(v, k, c):
@@ -83,7 +115,10 @@ def extend(cases, every=4):
             continue
         k, c = MAPS[(h >> 17) % len(MAPS)]
         try:
-            a2 = transform(rid, args, k, c)
+            if isinstance(c, str):
+                c = _anchor(rid, args, c)
+                c = None if c is None or isinstance(c, bool) else -k * c
+            a2 = None if c is None else transform(rid, args, k, c)
         except Exception:
             a2 = None
         if a2 is not None and _exact(a2):
